@@ -227,11 +227,10 @@ Definition yrel (y : yexp) (p : ppc) : Prop :=
   | YInit, _ => False
   | YNone, (PNone | PRecv true | PPubAck _ | PPubSave _ | PPubRec _ | PRelLookup _ | PRelCb _ _ _
            | PRelComp _ _ | PRelDel _) => False
-  | YNone, PPubCb (Publish _ m _) => m_qos m = 0
-  | YNone, PPubCb _ => False
+  | YNone, PPubCb q => after_cb_exp q = YNone
   | YNone, _ => True
   | YPub q, _ =>
-    (exists d m id, q = Publish d m id /\ m_qos m <> 0) /\
+    (exists d m id, q = Publish d m id /\ after_cb_exp q <> YNone) /\
     (p = PPubCb q \/
      match after_cb_exp q with
      | YAck id => p = PPubAck id
@@ -255,6 +254,28 @@ Proof.
   apply andb_true_iff in H as [H _]. apply andb_true_iff in H as [_ H]. exact H.
 Qed.
 
+Ltac ack_fin :=
+  eexists; split;
+  [ cbn [ack_step proc_obs get_id]; unfold after_cb_exp;
+    repeat match goal with
+           | E : (_ =? _) = _ |- _ => rewrite E
+           | E : m_qos _ = _ |- _ => rewrite E
+           end;
+    rewrite ?N.eqb_refl, ?message_eqb_refl, ?packet_eqb_refl;
+    repeat match goal with
+           | E : (_ =? _) = _ |- _ => rewrite E
+           | E : get_id _ = _ |- _ => rewrite E
+           end; cbn [N.eqb Pos.eqb]; reflexivity
+  | cbn [yrel]; unfold after_cb_exp;
+    repeat match goal with
+           | E : (_ =? _) = _ |- _ => rewrite E
+           | E : m_qos _ = _ |- _ => rewrite E
+           end; cbn [N.eqb Pos.eqb];
+    first [ exact I | reflexivity | assumption | (split; [reflexivity|split; reflexivity]) | (split; reflexivity)
+          | (apply N.eqb_eq; assumption)
+          | (split; [do 3 eexists; split; [reflexivity|unfold after_cb_exp; repeat match goal with E : (_ =? _) = _ |- _ => rewrite E end; discriminate]
+                    | first [left; reflexivity | right; reflexivity]]) ] ].
+
 Lemma ack_sim s e s' y : InvCtl s -> InvOwed s -> yrel y (k_ppc (k s)) -> step s e = Some s' ->
   exists y', ack_step y e = Some y' /\ yrel y' (k_ppc (k s')).
 Proof.
@@ -277,7 +298,7 @@ Proof.
   (* y = YPub q: make q and the disjunction explicit *)
   all: try (match type of HR with (exists _, _) /\ _ =>
          let d0 := fresh "d" in let m0 := fresh "m" in let i0 := fresh "i" in let Hq := fresh "Hq" in
-         destruct HR as [(d0 & m0 & i0 & -> & Hq) HR]; cbn [after_cb_exp] in HR;
+         destruct HR as [(d0 & m0 & i0 & -> & Hq) HR]; unfold after_cb_exp in HR, Hq;
          destruct (m_qos m0 =? 1) eqn:?; [|destruct (m_qos m0 =? 2) eqn:?];
          destruct HR as [HR|HR]; try discriminate HR; try contradiction end).
   all: repeat match goal with
@@ -288,19 +309,31 @@ Proof.
        | X : Publish _ _ _ = Publish _ _ _ |- _ => injection X as ? ? ?; subst
        end; subst.
   all: try solve [exfalso; congruence].
-  all: repeat match goal with E : m_qos ?m = _ |- _ => rewrite E in * end.
   all: try solve [specialize (O2 _ eq_refl); destruct after; cbn [after_pc] in O2; try contradiction;
                   try (match goal with |- context [yrel _ (PRecv ?b)] => destruct b end; try contradiction);
                   (eexists; split; [reflexivity|exact I])].
-  all: try solve [eexists; split;
-         [ cbn [ack_step proc_obs after_cb_exp get_id];
-           repeat match goal with E : (_ =? _) = _ |- _ => rewrite E end;
-           rewrite ?N.eqb_refl, ?message_eqb_refl, ?packet_eqb_refl;
-           repeat match goal with E : (_ =? _) = _ |- _ => rewrite E end; reflexivity
-         | cbn [yrel after_cb_exp];
-           repeat match goal with E : (_ =? _) = _ |- _ => rewrite E end;
-           first [ exact I | reflexivity | assumption | (split; [reflexivity|split; reflexivity]) | (split; reflexivity)
-                 | (apply N.eqb_eq; assumption)
-                 | (split; [do 3 eexists; split; [reflexivity|assumption] | first [left; reflexivity | right; reflexivity]]) ] ]].
-  Show.
-Admitted.
+  all: try solve [ack_fin].
+  all: try solve [unfold after_cb_exp in HR; repeat match goal with E : m_qos _ = _ |- _ => rewrite E in HR end;
+                  cbn in HR; discriminate HR].
+  all: try solve [exfalso; repeat match goal with E : m_qos _ = _ |- _ => rewrite E in * end; discriminate].
+Qed.
+
+Lemma scan_ack_gen es : forall pre s0 s y,
+  run step init pre = Some s0 -> run step s0 es = Some s -> yrel y (k_ppc (k s0)) ->
+  exists y', scan_ack y es = Some y' /\ yrel y' (k_ppc (k s)).
+Proof.
+  induction es as [|e es IH]; intros pre s0 s y Hpre Hrun Hrel.
+  - cbn in Hrun. injection Hrun as <-. exists y. split; [reflexivity|exact Hrel].
+  - cbn [run] in Hrun. destruct (step s0 e) as [s1|] eqn:Hs; [|discriminate Hrun].
+    assert (Hpre' : run step init (pre ++ [e]) = Some s1).
+    { rewrite run_app, Hpre. cbn [run]. rewrite Hs. reflexivity. }
+    destruct (InvG_reach _ _ Hpre) as (((((_ & HC & HO & _) & _) & _) & _) & _).
+    destruct (ack_sim _ _ _ _ HC HO Hrel Hs) as (y1 & Hy1 & Hrel1).
+    cbn [scan_ack]. rewrite Hy1. eapply IH; eassumption.
+Qed.
+
+(* every accepted trace passes the acknowledgement scanner *)
+Theorem scan_ack_accepted es s : run step init es = Some s ->
+  exists y, scan_ack YInit es = Some y /\ yrel y (k_ppc (k s)).
+Proof. intros H. exact (scan_ack_gen es [] init s YInit eq_refl H I). Qed.
+
